@@ -305,6 +305,8 @@ type TDCfg struct {
 	Ignore      bool // ignored and unexported fields
 	Dotted      bool // dotted config names (need PathSep)
 	EmptyTag    bool // fields without config name
+	NumericTag  bool // fields renamed to a small number (addresses a list index)
+	numTag      int
 	NoRegexp    bool
 	NoArrays    bool
 	Cats        []string // catalogue kinds usable as field types
@@ -412,6 +414,10 @@ func GenStructTD(t *rapid.T, cfg *TDCfg, depth int) *TD {
 		case opt == 3 && cfg.Dotted:
 			f.T = GenTD(t, cfg, depth-1)
 			f.Tag = fmt.Sprintf("d%d.e%d", cfg.next(), cfg.next())
+		case opt == 5 && cfg.NumericTag:
+			f.T = GenTD(t, cfg, depth-1)
+			f.Tag = strconv.Itoa(cfg.numTag) // unique over the whole type, so inline structs cannot collide
+			cfg.numTag++
 		case opt == 4 && cfg.EmptyTag:
 			f.T = GenTD(t, cfg, depth-1)
 			f.Tag = ""
@@ -441,7 +447,11 @@ func GenTV(t *rapid.T, cfg *TDCfg, td *TD, inColl bool) *TV {
 		bits := td.Type().Bits()
 		min := int64(-1) << (bits - 1)
 		max := int64(1)<<(bits-1) - 1
-		return &TV{I: rapid.SampledFrom([]int64{0, 1, -1, min, max, 42, min + 1, max - 1}).Draw(t, "i")}
+		pool := []int64{0, 1, -1, min, max, 42, min + 1, max - 1}
+		if bits == 64 {
+			pool = append(pool, 1<<53+1, -(1<<53 + 1)) // not representable as float64
+		}
+		return &TV{I: rapid.SampledFrom(pool).Draw(t, "i")}
 	case "dur":
 		return &TV{I: rapid.SampledFrom([]int64{0, 1, -1, math.MinInt64, math.MaxInt64, int64(90 * time.Minute), 1500000000, -1500000001, int64(time.Second)}).Draw(t, "d")}
 	case "uint", "uint8", "uint16", "uint32", "uint64":
@@ -450,7 +460,11 @@ func GenTV(t *rapid.T, cfg *TDCfg, td *TD, inColl bool) *TV {
 		if bits == 64 {
 			max = math.MaxUint64
 		}
-		return &TV{U: rapid.SampledFrom([]uint64{0, 1, max, max / 2, max/2 + 1, 7}).Draw(t, "u")}
+		pool := []uint64{0, 1, max, max / 2, max/2 + 1, 7}
+		if bits == 64 {
+			pool = append(pool, 1<<53+1, max-1)
+		}
+		return &TV{U: rapid.SampledFrom(pool).Draw(t, "u")}
 	case "float32":
 		return &TV{F: fstr(float64(rapid.SampledFrom([]float32{0, 1.5, -2.25, math.MaxFloat32, math.SmallestNonzeroFloat32, float32(math.Inf(1)), 16777216, 0.1}).Draw(t, "f32")))}
 	case "float64":
